@@ -1632,6 +1632,16 @@ func (r *caseRun) opRecover(img string, partial bool) {
 					s, metricName(r.entries[s].Metric), tagValue(r.entries[s].Tagv), p.ack))
 			}
 		}
+		// likewise a durable index posting whose names were only in memory when the index was flushed
+		// (an index flush that no metadata flush preceded): replaying the same names on this node finds the
+		// series in the index and never creates its tag value again
+		for _, pk := range obs.iunres {
+			if f := r.sh.idxFate[pk]; f == keyWindow || f == keyWedge {
+				r.tainted = true
+				r.c.Fail(f, fmt.Sprintf("series %s: its index posting is durable but its metric name / tag value does not resolve in an image taken inside a later flush: "+
+					"they were not durable when the index was flushed and the process died before a later metadata flush completed", pk))
+			}
+		}
 		return
 	}
 	// clause 4: flushed data resolves by name
